@@ -79,3 +79,16 @@ From WF Require Import model.Launch proofs.LaunchProofs.
 Theorem C14_every_hook_has_a_consumer : forall c h, In h (cf_hooks c) -> In (UHook h) (launch c).
 Proof. intros c h H. apply launch_units. do 6 right. exists h. split; [exact H|reflexivity]. Qed.
 Print Assumptions C14_every_hook_has_a_consumer.
+
+(* NIL ONLY AFTER THE HOOK RAN — unless the run's data is gone — for EVERY state (fault plan, lease, stale reads included): when
+   the hook consumer's lookup answers with a record whose data is still there, whatever its run state (a deletion that is only
+   REQUESTED leaves the data in place), and the handler returns nil (only then is the event acknowledged: C14_failure_not_acked),
+   the hook was invoked on exactly that record and returned nil — that invocation is the last token of the trace
+   (proofs/StoreOk.v) *)
+From WF Require Import proofs.StoreOk.
+Theorem C14_nil_only_after_the_hook_ran : forall st k e s r s1 s',
+  p_lookup (e_run e) s = (Ok (Some r), s1) -> r_obj r <> ODeleted ->
+  hook_handler st k e s = (Ok tt, s') -> o_dead s1 = false ->
+  exists pers now, o_trace s' = TUser (UFHook st) r pers now UOk :: o_trace s1.
+Proof. exact hook_nil_means_invoked. Qed.
+Print Assumptions C14_nil_only_after_the_hook_ran.
